@@ -21,6 +21,33 @@ const (
 func (n nameSetting) value() string  { return [...]string{"", nameO, "*"}[n] }
 func (n nameSetting) String() string { return [...]string{"unset", "other", "star"}[n] }
 
+// snKind: what Config.ServerName is. Everything but snHost differs from what goes into the SNI extension.
+type snKind int
+
+const (
+	snHost  snKind = iota // "secret.c14.test"
+	snDot                 // "secret.c14.test."   (hostnameInSNI strips the dot)
+	snIP4                 // "10.9.8.7"           (no SNI at all)
+	snIP6                 // "2001:db8::7"
+	snIP6Br               // "[2001:db8::7]"
+)
+
+func (k snKind) value() string {
+	return [...]string{nameS, nameS + ".", ip4, ip6, "[" + ip6 + "]"}[k]
+}
+func (k snKind) String() string { return [...]string{"host", "dot", "ip4", "ip6", "ip6br"}[k] }
+
+// sniMode: whether the client sends a server_name extension.
+type sniMode int
+
+const (
+	sniNormal  sniMode = iota
+	sniRemoved         // UConn.RemoveSNIExtension() on a parrot
+	sniCustom          // the parrot's spec without its SNIExtension, applied to HelloCustom
+)
+
+func (m sniMode) String() string { return [...]string{"sni", "sni-removed", "spec-without-sni"}[m] }
+
 type echMode int
 
 const (
@@ -46,10 +73,19 @@ type cfgSpec struct {
 	skipTime   bool
 	skipVerify bool
 	timeOff    time.Duration // client Config.Time returns T0+timeOff
+	sn         snKind        // Config.ServerName
+	sni        sniMode
 }
 
+func (c cfgSpec) serverName() string { return c.sn.value() }
+func (c cfgSpec) nameGrid() bool     { return c.sn != snHost || c.sni != sniNormal }
+
 func (c cfgSpec) key() string {
-	return fmt.Sprintf("%s/tls%x/%s/inv=%s/skiptime=%v/skipverify=%v/t+%dh", c.cl.name, c.vers&0xff+9, c.ech, c.inv, c.skipTime, c.skipVerify, int(c.timeOff.Hours()))
+	k := fmt.Sprintf("%s/tls%x/%s/inv=%s/skiptime=%v/skipverify=%v/t+%dh", c.cl.name, c.vers&0xff+9, c.ech, c.inv, c.skipTime, c.skipVerify, int(c.timeOff.Hours()))
+	if c.nameGrid() {
+		k += fmt.Sprintf("/servername=%s/%s", c.sn, c.sni)
+	}
+	return k
 }
 func (c cfgSpec) now() time.Time { return T0.Add(c.timeOff) }
 
@@ -79,7 +115,7 @@ func (e *env) close() {
 func (e *env) clientConfig(cs cfgSpec, cache tls.ClientSessionCache) *tls.Config {
 	now := cs.now()
 	cfg := &tls.Config{
-		ServerName:                 nameS,
+		ServerName:                 cs.serverName(),
 		RootCAs:                    e.p.roots,
 		Time:                       func() time.Time { return now },
 		InsecureSkipVerify:         cs.skipVerify,
@@ -162,9 +198,33 @@ func (e *env) handshake(cs cfgSpec, lk leafKind, cache tls.ClientSessionCache) o
 		Close() error
 	}
 	var uc hsConn
-	if cs.cl.plain {
+	switch {
+	case cs.cl.plain:
 		uc = tls.Client(conn, e.clientConfig(cs, cache))
-	} else {
+	case cs.sni == sniRemoved:
+		u := tls.UClient(conn, e.clientConfig(cs, cache), cs.cl.id)
+		if err := u.RemoveSNIExtension(); err != nil {
+			return obs{class: "other:RemoveSNIExtension " + err.Error()}
+		}
+		uc = u
+	case cs.sni == sniCustom:
+		spec, err := tls.UTLSIdToSpec(cs.cl.id)
+		if err != nil {
+			return obs{class: "other:UTLSIdToSpec " + err.Error()}
+		}
+		var exts []tls.TLSExtension
+		for _, x := range spec.Extensions {
+			if _, isSNI := x.(*tls.SNIExtension); !isSNI {
+				exts = append(exts, x)
+			}
+		}
+		spec.Extensions = exts
+		u := tls.UClient(conn, e.clientConfig(cs, cache), tls.HelloCustom)
+		if err := u.ApplyPreset(&spec); err != nil {
+			return obs{class: "other:ApplyPreset " + err.Error()}
+		}
+		uc = u
+	default:
 		uc = tls.UClient(conn, e.clientConfig(cs, cache), cs.cl.id)
 	}
 	err = uc.Handshake()
